@@ -28,6 +28,12 @@ class C10(Check):
             "*RRSIG handed to several Sign calls (other owner, label count, type, class, TTL; untouched, OrigTtl cleared, "
             "re-read from text) compared with a fresh value and RFC 4034 3.1, Sign/Verify leave their arguments "
             "unchanged, model cases for both. "
+            "Round 5: every other LENGTH of the Signature field for every algorithm (octets appended / prepended, cut at "
+            "either end, halves, r and s of ECDSA padded or stripped separately and together) must be refused (RFC 8017 "
+            "8.2.2, RFC 6605 4, RFC 8080 4: one length per key); sequences of Verify calls with several DNSKEYs of one "
+            "owner, algorithm and key tag but different key material (a second real key whose flags make the Appendix B "
+            "checksum collide, public keys with two words swapped or +1/-1 on two words), in every order of first use: "
+            "success iff the key given made the signature; verify model cases for both. "
             "A case is non-trivial when the output is not an error; distinct by hash of (function, arguments, output).")
     partial = [
         "unforgeability / correctness of Go's crypto/* is an assumption: sign_verify is proved for every signature "
